@@ -1,63 +1,109 @@
 (* C19 - CHECK, NOT NULL, defaults and generated columns hold for stored rows.
    Only statements, each closed by [exact], each followed by Print Assumptions.
-   The pipeline model (Store/C19Check.v) follows insertIter.Next / updateIter.Next in their real order:
-   row source (defaults, generated values from the values AS WRITTEN) -> nullability -> checks -> conversion. *)
-From Coq Require Import List ZArith Bool.
+   The pipeline model (Store/C19Check.v) follows insertIter.Next / updateIter.Next / handleOnDuplicateKeyUpdate in their
+   real order: row source (ProjectRow: values AS WRITTEN and literal defaults, then expression defaults and generated
+   columns left to right) -> nullability -> checks -> conversion to the integer column type (range error / clamping). *)
+From Coq Require Import String List ZArith Bool.
 Import ListNotations.
-From GMS Require Import Store.C19Check Store.C19CheckProofs.
+From GMS Require Import Store.C19Check Store.C19CheckProofs Store.C19Scalar.
 Open Scope Z_scope.
 
-(* For every schema (generated columns reading base columns and EARLIER generated columns) and every set of checks (also over
-   generated columns), after ANY history of INSERT / UPDATE / INSERT .. ON DUPLICATE KEY UPDATE statements without IGNORE whose values already have the column type (integers, NULL, DEFAULT, decimal
-   literals - everything but strings), every stored row has the schema's length, makes no CHECK false, holds no NULL
-   in a NOT NULL column, and every generated column equals its expression over the row. *)
+(* For every schema over the integer types (generated columns and expression defaults reading earlier columns and plain
+   columns; STORED or VIRTUAL) and every set of checks, after ANY history of INSERT / UPDATE / INSERT .. ON DUPLICATE KEY
+   UPDATE (any number of rows, VALUES()) / REPLACE without IGNORE whose inserted values hold no strings (integers of any
+   size, NULL, DEFAULT, decimal literals; DEFAULT in the generated columns), every stored row has the schema's length,
+   makes no ENFORCED CHECK false, holds no NULL in a NOT NULL column, and every generated column, stored or virtual,
+   equals its expression over the row.  The enforced checks are eff_checks: all of them, unless the table has a VIRTUAL
+   column (see C19_virtual_column_disables_checks_refuted). UPDATE / ON DUPLICATE KEY UPDATE right sides are arbitrary. *)
 Theorem C19_stored_rows_ok_typed_histories :
   forall sch chks, wf_schema sch -> forall h t,
-    Forall (typed_stmt sch) h -> Forall (row_ok sch chks) t -> Forall (row_ok sch chks) (run sch chks t h).
+    Forall (typed_stmt sch) h -> Forall (row_ok sch (eff_checks sch chks)) t ->
+    Forall (row_ok sch (eff_checks sch chks)) (run sch chks t h).
 Proof. exact stored_rows_ok_typed_histories. Qed.
 Print Assumptions C19_stored_rows_ok_typed_histories.
 
+Theorem C19_enforced_checks_without_virtual_column :
+  forall sch chks, existsb virt sch = false -> eff_checks sch chks = chks.
+Proof. exact eff_checks_no_virtual. Qed.
+Print Assumptions C19_enforced_checks_without_virtual_column.
+
 Theorem C19_insert_typed_row_ok :
-  forall sch chks rs r, wf_schema sch -> length rs = length sch -> Forall typed_raw rs ->
+  forall sch chks rs r, wf_schema sch -> typed_row sch rs ->
     insert_row false sch chks rs = Stored r -> row_ok sch chks r.
 Proof. exact insert_typed_row_ok. Qed.
 Print Assumptions C19_insert_typed_row_ok.
 
+(* UPDATE: any SET list (strings, out-of-range values, expressions): SetField converts before the checks *)
 Theorem C19_update_typed_row_ok :
-  forall sch chks sets old r, wf_schema sch -> Forall (fun p => typed_rhs (snd p)) sets ->
+  forall sch chks sets old r, wf_schema sch ->
     row_ok sch chks old -> update_row false sch chks sets old = Stored r -> row_ok sch chks r.
 Proof. exact update_typed_row_ok. Qed.
 Print Assumptions C19_update_typed_row_ok.
 
-(* the ON DUPLICATE KEY UPDATE branch of INSERT (insertIter.handleOnDuplicateKeyUpdate) *)
+(* the ON DUPLICATE KEY UPDATE branch of INSERT (insertIter.handleOnDuplicateKeyUpdate), SET terms may read VALUES() *)
 Theorem C19_on_duplicate_key_update_typed_row_ok :
-  forall sch chks sets old r, wf_schema sch -> Forall (fun p => typed_rhs (snd p)) sets ->
-    row_ok sch chks old -> odku_row sch chks sets old = Stored r -> row_ok sch chks r.
+  forall sch chks sets old new r, wf_schema sch ->
+    row_ok sch chks old -> odku_row false sch chks sets old new = Stored r -> row_ok sch chks r.
 Proof. exact odku_typed_row_ok. Qed.
 Print Assumptions C19_on_duplicate_key_update_typed_row_ok.
 
-(* NOT NULL needs no guard: after ANY history (strings, IGNORE, anything) no NOT NULL column holds NULL *)
+(* NOT NULL needs no guard: after ANY history (strings, out-of-range values, IGNORE, REPLACE, anything) no NOT NULL
+   column holds NULL; virtual columns are nullable *)
 Theorem C19_not_null_respected :
-  forall sch chks h t,
+  forall sch chks, wf_virtual sch -> forall h t,
     Forall (stmt_lengths_ok sch) h -> Forall (shape_ok sch) t -> Forall (shape_ok sch) (run sch chks t h).
 Proof. exact not_null_respected. Qed.
 Print Assumptions C19_not_null_respected.
 
-(* omitted / DEFAULT columns get their declared default (any other values in the row, IGNORE or not); without a
-   declared default they get NULL, or 0 for a NOT NULL column under IGNORE *)
+(* omitted / DEFAULT columns get their declared literal default when it fits the column type (any other values in the
+   row, IGNORE or not); without a declared default they get NULL, or 0 for a NOT NULL column under IGNORE *)
 Theorem C19_defaults_applied :
   forall ign sch chks rs r i c,
     length rs = length sch -> insert_row ign sch chks rs = Stored r ->
     nth_error sch i = Some c -> gen c = None -> nth_error rs i = Some RDef ->
     match dflt c with
-    | Some d => nth i r None = Some d
-    | None => nth i r None = if ign && notnull c then Some 0 else None
+    | DLit d => in_range (cty c) d = true -> nth i r None = Some d
+    | DNone => in_range (cty c) 0 = true -> nth i r None = if ign && notnull c then Some 0 else None
+    | DExpr _ => True
     end.
 Proof. exact defaults_applied. Qed.
 Print Assumptions C19_defaults_applied.
 
-(* False of the faithful model without the "already of the column's type" guard: the checks run before the
-   conversion.  CREATE TABLE t (c0 INT PRIMARY KEY, c1 INT, CHECK (c1 < 10)); INSERT INTO t VALUES (1, '9.6') stores 10. *)
+(* an omitted / DEFAULT column with DEFAULT (e) holds e evaluated over the STORED row (typed rows, no IGNORE) *)
+Theorem C19_expression_defaults_applied :
+  forall sch chks rs r i c e,
+    wf_schema sch -> typed_row sch rs -> insert_row false sch chks rs = Stored r ->
+    nth_error sch i = Some c -> gen c = None -> dflt c = DExpr e -> nth_error rs i = Some RDef ->
+    nth i r None = eval_term (cells r) e.
+Proof. exact expression_defaults_applied. Qed.
+Print Assumptions C19_expression_defaults_applied.
+
+(* virtual columns as read back: nothing changes on a row whose generated columns equal their expressions *)
+Theorem C19_virtual_read_back :
+  forall sch r, length r = length sch -> row_generated_ok sch r -> refresh_virtual sch r = r.
+Proof. exact refresh_virtual_id. Qed.
+Print Assumptions C19_virtual_read_back.
+
+(* DECIMAL(p,1) and VARCHAR(n): UPDATE converts before the checks, so whatever it stores is fine, IGNORE or not;
+   INSERT is fine for values that need no conversion *)
+Theorem C19_decimal_update_ok : forall p chks ign old h, dres_ok chks (dexec p chks (DUpd ign old h)).
+Proof. exact decimal_update_ok. Qed.
+Print Assumptions C19_decimal_update_ok.
+Theorem C19_varchar_update_ok : forall n chks ign old s, sres_ok chks (sexec n chks (SUpd ign old s)).
+Proof. exact varchar_update_ok. Qed.
+Print Assumptions C19_varchar_update_ok.
+Theorem C19_decimal_insert_exact_ok :
+  forall p chks ign v, d_in_range p v = true -> dres_ok chks (dexec p chks (DIns ign (v * 10))).
+Proof. exact decimal_insert_exact_ok. Qed.
+Print Assumptions C19_decimal_insert_exact_ok.
+Theorem C19_varchar_insert_fits_ok :
+  forall n chks ign s, (String.length s <= n)%nat -> sres_ok chks (sexec n chks (SIns ign s)).
+Proof. exact varchar_insert_fits_ok. Qed.
+Print Assumptions C19_varchar_insert_fits_ok.
+
+(* ---- false of the faithful model ---- *)
+(* the checks run before the conversion.
+   CREATE TABLE t (c0 INT PRIMARY KEY, c1 INT, CHECK (c1 < 10)); INSERT INTO t VALUES (1, '9.6') stores 10. *)
 Theorem C19_check_before_convert_refuted :
   exists sch chks h r c, run sch chks [] h = [r] /\ In c chks /\ eval_check (cells r) c = Some false.
 Proof.
@@ -72,7 +118,7 @@ Theorem C19_generated_before_convert_refuted :
     nth i r None <> eval_term (cells r) e.
 Proof.
   exists w_sch2, [Insert false [[RInt 1; RStrF 96; RDef]]], [Some 1; Some 10; Some 18], 2%nat,
-         (mkCol false None (Some (TMul (TCol 1) (TLit 2)))), (TMul (TCol 1) (TLit 2)).
+         (gcol (TMul (TCol 1) (TLit 2))), (TMul (TCol 1) (TLit 2)).
   destruct generated_before_convert_witness as [H1 H2].
   split; [exact H1|split; [reflexivity|split; [reflexivity|]]]. rewrite H2. cbn. discriminate.
 Qed.
@@ -99,13 +145,83 @@ Proof.
 Qed.
 Print Assumptions C19_insert_ignore_null_generated_refuted.
 
+(* INSERT IGNORE clamps TINYINT 200 to 127 and wraps UNSIGNED -5 to 251 after the CHECKs (c1 <> 127, c2 < 100) and the
+   generated column c3 AS (c1 + 1) saw the written values *)
+Theorem C19_ignore_clamp_after_check_refuted :
+  exists sch chks h r c1 c2, run sch chks [] h = [r] /\ In c1 chks /\ In c2 chks /\
+    eval_check (cells r) c1 = Some false /\ eval_check (cells r) c2 = Some false /\
+    nth 3 r None <> eval_term (cells r) (TAdd (TCol 1) (TLit 1)).
+Proof.
+  exists w_sch5, w_chk5, [Insert true [[RInt 1; RInt 200; RInt (-5); RDef]]], [Some 1; Some 127; Some 251; Some 201],
+         (mkCheck Ne (TCol 1) (TLit 127)), (mkCheck Lt (TCol 2) (TLit 100)).
+  destruct ignore_clamp_witness as (H1 & H2 & H3 & H4).
+  split; [exact H1|split; [left; reflexivity|split; [right; left; reflexivity|split; [exact H2|split; [exact H3|]]]]].
+  rewrite H4. cbn. discriminate.
+Qed.
+Print Assumptions C19_ignore_clamp_after_check_refuted.
+
+(* CHECK (c1 <> 12): INSERT IGNORE (1, '12abc') compares 0 with 12 and stores the prefix 12 *)
+Theorem C19_malformed_string_refuted :
+  exists sch chks h r c, run sch chks [] h = [r] /\ In c chks /\ eval_check (cells r) c = Some false.
+Proof.
+  exists w_sch1, w_chk6, [Insert true [[RInt 1; RBad 12]]], [Some 1; Some 12], (mkCheck Ne (TCol 1) (TLit 12)).
+  destruct malformed_string_witness as [H1 H2]. split; [exact H1|split; [left; reflexivity|exact H2]].
+Qed.
+Print Assumptions C19_malformed_string_refuted.
+
+(* c2 INT DEFAULT (c1 + 1): INSERT (1, '3.6') stores c1 = 4 and c2 = 4 *)
+Theorem C19_expression_default_before_convert_refuted :
+  exists sch h r, run sch [] [] h = [r] /\ nth 2 r None <> eval_term (cells r) (TAdd (TCol 1) (TLit 1)).
+Proof.
+  exists w_sch7, [Insert false [[RInt 1; RStrF 36; RDef]]], [Some 1; Some 4; Some 4].
+  destruct expression_default_witness as [H1 H2]. split; [exact H1|]. rewrite H2. cbn. discriminate.
+Qed.
+Print Assumptions C19_expression_default_before_convert_refuted.
+
+(* a table with a VIRTUAL generated column enforces no CHECK: INSERT (1, 30) and UPDATE c1 = 50 pass CHECK (c1 < 10) *)
+Theorem C19_virtual_column_disables_checks_refuted :
+  exists sch chks r c,
+    run sch chks [] [Insert false [[RInt 1; RInt 30; RDef]]] = [r] /\
+    run sch chks [] [Insert false [[RInt 1; RInt 3; RDef]]; Update false [(1%nat, URaw (RInt 50))] None]
+      = [[Some 1; Some 50; Some 51]] /\
+    In c chks /\ eval_check (cells r) c = Some false.
+Proof.
+  exists w_sch8, w_chk1, [Some 1; Some 30; Some 31], (mkCheck Lt (TCol 1) (TLit 10)).
+  destruct virtual_checks_witness as (H1 & H2 & H3). split; [exact H1|split; [exact H2|split; [left; reflexivity|exact H3]]].
+Qed.
+Print Assumptions C19_virtual_column_disables_checks_refuted.
+
+(* an explicit value for a generated column is refused in the first tuple only: VALUES (1, 1, DEFAULT), (2, 1, 99) *)
+Theorem C19_explicit_generated_value_refuted :
+  exists sch h r1 r2 e, run sch [] [] h = [r1; r2] /\ nth_error sch 2 = Some (gcol e) /\
+    nth 2 r2 None <> eval_term (cells r2) e.
+Proof.
+  exists w_sch2, [Insert false [[RInt 1; RInt 1; RDef]; [RInt 2; RInt 1; RInt 99]]],
+         [Some 1; Some 1; Some 2], [Some 2; Some 1; Some 99], (TMul (TCol 1) (TLit 2)).
+  destruct explicit_generated_witness as [H1 _]. split; [exact H1|split; [reflexivity|]]. cbn. discriminate.
+Qed.
+Print Assumptions C19_explicit_generated_value_refuted.
+
+(* DECIMAL(3,1): CHECK (d * 2 < 20) passes on 9.96, stored as 10.0; IGNORE stores 0.0 for -1000.50 after CHECK (d <> 0)
+   passed; VARCHAR(3): IGNORE truncates 'abcd' to 'abc' after CHECK (s <> 'abc') and CHAR_LENGTH saw 'abcd' *)
+Theorem C19_decimal_rounding_refuted :
+  exists p chks s r, dexec p chks s = r /\ ~ dres_ok chks r.
+Proof. exists 3, [DMulCmp 2 DLt 20], (DIns false 996), (DStored 100 0). exact decimal_rounding_witness. Qed.
+Print Assumptions C19_decimal_rounding_refuted.
+Theorem C19_decimal_ignore_out_of_range_refuted :
+  exists p chks s r, dexec p chks s = r /\ ~ dres_ok chks r.
+Proof. exists 3, [DCmp DNe 0], (DIns true (-100050)), (DStored 0 1%N). exact decimal_ignore_range_witness. Qed.
+Print Assumptions C19_decimal_ignore_out_of_range_refuted.
+Theorem C19_varchar_ignore_truncate_refuted :
+  exists n chks s r, sexec n chks s = r /\ ~ sres_ok chks r.
+Proof.
+  exists 3%nat, [SNe "abc"%string], (SIns true "abcd"%string), (SStored "abc"%string 4 1%N). exact varchar_truncate_witness.
+Qed.
+Print Assumptions C19_varchar_ignore_truncate_refuted.
+
 Example C19_nonvacuous :
-  wf_schema w_sch4 /\
-  Forall (typed_stmt w_sch4) [Insert false [[RInt 1; RInt 7; RDef; RDef]; [RInt 2; RDec 26; RNull; RDef]];
-                              Update false [(1%nat, UTerm (TAdd (TCol 2) (TLit 10)))] (Some 1)] /\
-  run w_sch4 [mkCheck Lt (TCol 2) (TCol 1)] []
-      [Insert false [[RInt 1; RInt 7; RDef; RDef]; [RInt 2; RDec 26; RNull; RDef]];
-       Update false [(1%nat, UTerm (TAdd (TCol 2) (TLit 10)))] (Some 1)]
-    = [[Some 1; Some 14; Some 4; Some 18]; [Some 2; Some 3; None; None]].
+  wf_schema w_sch4 /\ Forall (typed_stmt w_sch4) w_hist /\
+  run w_sch4 [mkCheck Lt (TCol 2) (TCol 1)] [] w_hist
+    = [[Some 1; Some 9; Some 3; Some 12]; [Some 2; Some 25; None; None]; [Some 3; Some 6; Some 2; Some 8]].
 Proof. exact nonvacuous_example. Qed.
 Print Assumptions C19_nonvacuous.
